@@ -86,7 +86,17 @@ pub struct TextSpec {
     /// filler declarations (a large file: tens of kilobytes) and additional faults (many
     /// diagnostics) - size thresholds are a classic blind spot of small generated inputs
     pub bulk: usize,
+    /// the filler declaration in the MIDDLE of the bulk is spelled with another letter of the
+    /// same length; toggled by an edit that changes nothing else (not even the marker)
+    pub bulk_variant: bool,
+    /// keys of used files that are large: this file refers to the class in the middle of their
+    /// bulk (`BM_<key>`), so that a stale middle of an included file shows in THIS file's
+    /// diagnostics
+    pub probe_bm: Vec<String>,
     pub extra_faults: usize,
+    /// a declaration placed behind a block comment of this many characters on the SAME line
+    /// (columns beyond 255 / 65535)
+    pub long_col: usize,
     /// trailing blanks and a comment after statements (trivia after the last token)
     pub trail: bool,
     /// the text does not end with a line break
@@ -157,10 +167,22 @@ impl TextSpec {
         for u in &self.uses {
             s.push_str(&format!("def D_{k}_{u} : K_{u} {{ let x = 2; }}{e}"));
         }
+        for u in &self.probe_bm {
+            s.push_str(&format!("def DBM_{k}_{u} : BM_{u};{e}"));
+        }
         if let Some(u) = &self.template_use {
             s.push_str(&format!("def DT_{k}_{u} : T_{u}<3>;{e}"));
         }
+        if self.long_col > 0 {
+            s.push_str(&format!("/* {} */ def LC_{k} : K_{k};{e}", "x".repeat(self.long_col)));
+        }
         for i in 0..self.bulk {
+            if i == self.bulk / 2 {
+                // same length either way
+                let name = if self.bulk_variant { "QM" } else { "BM" };
+                s.push_str(&format!("class {name}_{k};{e}"));
+                continue;
+            }
             s.push_str(&format!("def B_{k}_{i} : K_{k} {{ let x = {i}; }}{e}"));
         }
         for i in 0..self.extra_faults {
@@ -316,14 +338,32 @@ pub fn gen_text(rng: &mut Rng, vs: &mut Versions, key: &str, includable: &[&str]
         trail: rng.chance(1, 5),
         no_final_eol: rng.chance(1, 5),
         pp: cfg.eol == Eol::Lf && rng.chance(1, 3),
-        bulk: if rng.chance(1, 60) { rng.range(100, 700) } else { 0 },
-        extra_faults: if cfg.allow_faults && rng.chance(1, 40) { rng.range(10, 60) } else { 0 },
+        bulk: if rng.chance(1, 40) { if rng.chance(1, 2) { rng.range(100, 300) } else { rng.range(480, 800) } } else { 0 },
+        bulk_variant: false,
+        probe_bm: Vec::new(),
+        long_col: match rng.below(90) {
+            0 => rng.range(260, 400),
+            1 => rng.range(1_500, 6_000),
+            2 => rng.range(65_540, 66_000),
+            _ => 0,
+        },
+        extra_faults: if cfg.allow_faults && rng.chance(1, 40) {
+            if rng.chance(1, 4) { rng.range(260, 400) } else { rng.range(10, 60) }
+        } else {
+            0
+        },
     }
 }
 
 /// An edited successor of `prev` (always a new version number).
 pub fn edit_text(rng: &mut Rng, vs: &mut Versions, prev: &TextSpec, includable: &[&str], cfg: &GenCfg) -> TextSpec {
     let mut t = prev.clone();
+    if t.bulk > 0 && rng.chance(1, 2) {
+        // a same-length change in the middle of a large file, nothing else (a rename to an
+        // identifier of equal length): the version marker deliberately stays
+        t.bulk_variant = !t.bulk_variant;
+        return t;
+    }
     t.version = vs.next();
     match rng.below(13) {
         12 => t.pp = cfg.eol == Eol::Lf && !t.pp,
@@ -486,15 +526,32 @@ pub fn gen_live(rng: &mut Rng, small_k: bool) -> Scenario {
     }
     let cfg = GenCfg { alphabet: Alphabet::Ascii, eol: Eol::Lf, allow_faults: true, allow_syntax_fault: true, max_lead: 2 };
     let mut b = Build::new();
+    // now and then a WIDE workspace: document `a` includes 70-130 small files (one
+    // publication per file: batches far beyond any small queue bound)
+    let wide = if rng.chance(1, 50) { rng.range(70, 130) } else { 0 };
     for k in &keys {
-        let spec = gen_text(rng, &mut b.vs, k, &includable(&keys, k), &cfg);
+        let mut spec = gen_text(rng, &mut b.vs, k, &includable(&keys, k), &cfg);
+        if *k == "a" {
+            for i in 0..wide {
+                spec.includes.push(format!("leaf/l{i}.td"));
+            }
+        }
         if rng.chance(5, 6) {
             b.disk.insert(path_of_key(k), FileState::Text(spec.render()));
         }
         b.specs.insert(k.to_string(), spec);
     }
+    for i in 0..wide {
+        b.disk.insert(format!("{DIR}/leaf/l{i}.td"), FileState::Text(format!("class L_{i};\n")));
+    }
     let disk0 = b.disk.clone();
-    let n_ops = if many || rng.chance(1, 20) { rng.range(15, 40) } else { rng.range(3, 12) };
+    let n_ops = if rng.chance(1, 150) {
+        rng.range(80, 140)
+    } else if many || rng.chance(1, 20) {
+        rng.range(15, 40)
+    } else {
+        rng.range(3, 12)
+    };
     let docs: Vec<&str> = keys.iter().filter(|k| **k != "d").copied().collect();
     let mut n_requests = 0usize;
     while b.ops.len() < n_ops {
@@ -578,6 +635,8 @@ fn next_spec(rng: &mut Rng, b: &mut Build, keys: &[&str], k: &str, cfg: &GenCfg)
     } else {
         edit_text(rng, &mut b.vs, &prev, &includable(keys, k), cfg)
     };
+    let mut spec = spec;
+    spec.probe_bm = spec.includes.iter().map(|i| i.trim_end_matches(".td").to_string()).filter(|u| b.specs.get(u).map(|s| s.bulk > 0).unwrap_or(false)).collect();
     b.history.entry(k.to_string()).or_default().push(spec.clone());
     b.specs.insert(k.to_string(), spec.clone());
     spec
@@ -696,7 +755,15 @@ pub fn gen_converge(rng: &mut Rng) -> Scenario {
 /// document differs from the text on disk.
 pub fn gen_overlay(rng: &mut Rng, removed_variant: bool) -> Scenario {
     let with_c = rng.chance(1, 2);
-    let keys: Vec<&str> = if with_c { vec!["a", "b", "c"] } else { vec!["a", "b"] };
+    let keys: Vec<&str> = if rng.chance(1, 50) {
+        // many open documents at once (bounded caches evict only then)
+        vec!["a", "b", "c", "g", "h", "i", "j", "k", "l", "m", "n", "o", "p", "q", "r", "s", "t", "u", "v", "w"]
+    } else if with_c {
+        vec!["a", "b", "c"]
+    } else {
+        vec!["a", "b"]
+    };
+    let many = keys.len() > 3;
     let cfg = GenCfg { alphabet: Alphabet::Ascii, eol: Eol::Lf, allow_faults: true, allow_syntax_fault: false, max_lead: 2 };
     let mut b = Build::new();
     for k in &keys {
@@ -719,7 +786,7 @@ pub fn gen_overlay(rng: &mut Rng, removed_variant: bool) -> Scenario {
     }
     let disk0 = b.disk.clone();
     let paced = rng.chance(1, 2);
-    let n_steps = rng.range(2, 6);
+    let n_steps = if many { rng.range(22, 32) } else { rng.range(2, 6) };
     let probe_kinds = [ReqKind::DocumentSymbol, ReqKind::Definition, ReqKind::References, ReqKind::Hover, ReqKind::DocumentLink];
     for _ in 0..n_steps {
         let roll = rng.below(12);
@@ -760,7 +827,12 @@ pub fn gen_overlay(rng: &mut Rng, removed_variant: bool) -> Scenario {
             touch(rng, &mut b, &keys, k, &cfg, false, false);
         }
         // probes on every open document
-        let paths: Vec<String> = b.open.keys().cloned().collect();
+        let mut paths: Vec<String> = b.open.keys().cloned().collect();
+        while paths.len() > 4 {
+            // with many open documents: a sample of them
+            let i = rng.below(paths.len());
+            paths.remove(i);
+        }
         for p in &paths {
             b.request_ops.push(b.ops.len());
             b.ops.push(Op::Request { kind: ReqKind::DocumentSymbol, path: p.clone(), offset: 0 });
